@@ -85,6 +85,13 @@ CHECKS = {
             "operators, left-to-right short circuit) says True; a raising predicate must yield a ConditionFailedError with cause, a false one without; the accepted value is the inner "
             "conversion's; into_data ignores conditions. Each condition object sees the whole grid in sequence, so stateful predicates are exposed.",
             "Grid values and shapes are fixed lists; numpy semantics are taken from numpy itself."),
+    'C19': ("exhaustive enumeration of value pool x sink kind x source kind x the full formatting-option cube on the real IO functions under a non-UTF-8 locale, with pane.io.open recorded; "
+            "bounded multi-document write histories",
+            "Every pooled typed value is written and read back through every sink/source kind pairing and every one of the 8 JSON and 1 152 YAML option settings (quick: full cube on "
+            "half of the values, 24 cube corners on the rest); the process runs with LC_ALL=C / PYTHONUTF8=0 so a missing encoding is visible, and pane.io.open is shadowed by a recorder "
+            "to check encoding='utf-8' and closure of every handle pane opens (also on failing reads); caller streams must stay open and be positioned after the text; histories of 0-3 "
+            "documents (incl. null documents) written to one stream must come back one value per document from from_yaml_all.",
+            "Value pool and option values are fixed lists; PyYAML / json as installed are trusted to parse what they emit (a dumper limitation would be triaged, none seen)."),
     'C20': ("bounded-exhaustive enumeration of all identifiers (<=3/4 words over a 3-letter alphabet) x styles on the real rename code, algebraic-law oracle",
             "Every snake_case identifier of up to 3 (quick) / 4 (thorough) words of 2-3 letters over {a,b,z} is pushed through all 5 styles and all 25 style pairs on the real code; canonical form, idempotence, inverse and composition laws are checked on every one, malformed shapes must raise ValueError, and the class-level rename path is exercised on generated classes. The space is finite and fully enumerated, which is the right level for a pure string function whose failure modes are word-boundary patterns that all occur within 3-4 short words.",
             "Alphabet {a,b,z}, words of 2-3 letters; digits / non-ASCII outside the alphabet. Oracle formulas are independent of pane's splitting code."),
